@@ -138,6 +138,14 @@ def plan(prop, tier):
         return fams
     if prop == "C06":
         return pipeline_plan(tier)
+    if prop == "C20":
+        # every message-sending site of every operator: all sequential families (small ones in the quick
+        # tier), sources, interval, pipelines
+        skipq = ("merge3", "combine3", "concat3", "share2", "merge2_late")
+        fams = [(n, c, r) for n, (c, r) in F.items() if not (q and n in skipq)]
+        fams += plan("C15", tier)[:2] + plan("C16", tier)[:2] + plan("C14", tier)[:3]
+        fams += pipeline_plan(tier)[:2 if q else 8]
+        return fams
     if prop == "C13":
         two = dict(sinks=["probe", "probe"])
         b = dict(maxData=1, maxTop=4 if q else 5, maxPull=1, allowFail=False, burst=q is False)
